@@ -338,10 +338,10 @@ def queries(tier, seed):
                 if overlap and k == 1:
                     continue
                 for level_sym in (False, True):
-                    if via == "port" and not thorough and ((k > 2 and (overlap or level_sym)) or (k == 2 and level_sym)):
-                        continue  # (port, quick: k = 3 only sequential from a full bucket - the write-spacing case)
+                    if via == "port" and ((k > 2 and (overlap or level_sym)) or (k == 2 and level_sym and not thorough) or k > 3):
+                        continue  # (port: k = 3 only sequential from a full bucket - the write-spacing case; the 50 ms token task is stepped)
                     qs.append(Query(f"duty[{via}|k={k}|{'overlap' if overlap else 'seq'}|{'level=sym' if level_sym else 'full'}]", lambda c, a=(k, overlap, level_sym, via): h_duty(c, *a),
-                                    {"h": "duty", "k": k, "overlap": overlap, "level_sym": level_sym, "via": via}, group=f"duty:{via}", max_secs=900 if thorough else 200, max_paths=200_000, weight=k * (2 if overlap else 1), split_depth=8))
+                                    {"h": "duty", "k": k, "overlap": overlap, "level_sym": level_sym, "via": via}, group=f"duty:{via}", max_secs=600 if thorough else 200, max_paths=200_000, weight=k * (2 if overlap else 1), split_depth=8))
     for k in ((1, 2, 3, 4) if thorough else (1, 2, 3)):
         qs.append(Query(f"mqtt[k={k}]", lambda c, a=(k,): h_mqtt(c, *a), {"h": "mqtt", "k": k}, group="mqtt", max_secs=900 if thorough else 200, max_paths=200_000, weight=k, split_depth=8))
     for k in ((2, 3, 4, 5) if thorough else (2, 3, 4)):
